@@ -10,7 +10,7 @@ THEOREMS = ["PcVerif.Props.C20.order_pinned", "PcVerif.Props.C20.markers_pinned"
 
 DOCUMENTED = ["dfxp", "microdvd", "webvtt", "sami", "srt", "scc"]
 SYMS = ["0", "1", "\n", "\r", "{", "}", "-", ">", "W", "<", "s", "t", "/", " ",
-        "-->", "WEBVTT", "<sami", "</tt>", "Scenarist_SCC V1.0", "<SAMI", "</TT>", "İ", "K", "١", "²", "\x1c", " "]
+        "-->", "WEBVTT", "<sami", "</tt>", "Scenarist_SCC V1.0", "<SAMI", "</TT>", "İ", "K", "١", "²", "\x1c", " ", "\ufeff"]
 
 
 def readers():
@@ -183,8 +183,11 @@ def own_through_model(chk):
                     ln = "x"
                 lines.append(ln)
             d = rng.choice([1000000, 1500000, 40000])
+            if i % 5 == 4:
+                # times as the SCC reader returns them: floats, whole or with a fraction of a microsecond
+                t = float(t) + rng.choice([0.0, 0.0, 0.3333333333, 0.5]); d = float(d)
             caps.append((t, t + d, capio.nodes_from_lines(lines)))
-            t += d + rng.choice([0, 1000, 2000000])
+            t = int(t + d) + rng.choice([0, 1000, 2000000])
         doc = W[name]().write(gen.build_set({"en-US": [(a, e, [n[1] for n in ns if n[0] == "T"]) for (a, e, ns) in caps]}))
         jobs.append((name, caps, doc, b.add(op[name], capio.enc_langs([caps])), b.add("detect.format", core.enc(doc))))
     out = b.run()
